@@ -178,6 +178,8 @@ def run(prog, tier):
     obs.extend(default_instance_obligations(prog, "components-not-shared", [('GpLinearInverter', '__init__')]))
 
     obs.extend(dtype_hazard_obligations(prog, "float-arithmetic", ['inference/gp/inversion.py']))
+    from .common import call_order_obligations
+    obs.extend(call_order_obligations(prog, "arguments-in-order", ['inference/gp/inversion.py']))
 
     obs.extend(memo_obligations(prog, "cache-key", [prog.cls("GpLinearInverter")]))
 
